@@ -291,6 +291,8 @@ pub struct Sys {
     pub relin_full: Option<RelinKeys>,
     pub msgs: Vec<Vec<C64>>,
     pub pvals: Vec<Vec<C64>>,
+    /// destinations that already hold some other valid ciphertext (forms oracle)
+    pub dirty: Vec<Ciphertext>,
     /// width (in bits) of a scale class of the abstract key
     pub sclass_width: f64,
     pub stats: Stats,
@@ -338,7 +340,8 @@ impl Sys {
             rep(&[c(3.0, -4.0), c(-0.25, 128.0), c(0.015625, -1.0), c(-7.5, 0.0)]),
         ];
         let pvals = vec![msgs[1].clone(), msgs[2].clone(), msgs[3].clone(), msgs[4].clone(), msgs[0].clone()];
-        Ok(Sys { spec: spec.clone(), fam, kit, encoder, seed, levels, moduli, qbits, qhalf, qwords, special, relin1, relin_full, msgs, pvals, sclass_width: 10.0, stats: Stats::default() })
+        let dirty = crate::he::dirty_destinations(&kit);
+        Ok(Sys { spec: spec.clone(), fam, kit, encoder, seed, levels, moduli, qbits, qhalf, qwords, special, relin1, relin_full, msgs, pvals, dirty, sclass_width: 10.0, stats: Stats::default() })
     }
 
     pub fn n(&self) -> f64 {
@@ -653,14 +656,14 @@ impl Sys {
         operands: &[&Ciphertext],
         forms: bool,
         f_inplace: &dyn Fn() -> Ciphertext,
-        f_dest: &dyn Fn() -> Ciphertext,
+        f_dest: &dyn Fn(Ciphertext) -> Ciphertext,
         f_new: &dyn Fn() -> Ciphertext,
         dis: &mut Vec<Dis>,
     ) -> Result<Ciphertext, String> {
         let before: Vec<u64> = operands.iter().map(|c| ct_fingerprint(c)).collect();
         let r1 = guard(f_inplace);
         if forms {
-            let r2 = guard(f_dest);
+            let r2 = guard(|| f_dest(Ciphertext::new()));
             let r3 = guard(f_new);
             let after: Vec<u64> = operands.iter().map(|c| ct_fingerprint(c)).collect();
             if before != after {
@@ -675,6 +678,23 @@ impl Sys {
                     expected: "in-place, destination and _new forms accept/refuse alike".into(),
                     observed: format!("inplace={:?} dest={:?} new={:?}", a.is_ok(), b.is_ok(), c.is_ok()),
                 });
+            } else if a.is_ok() && (a == b && a == c) {
+                // the destination form once more, into destinations that already hold other valid ciphertexts
+                for (k, d0) in self.dirty.iter().enumerate() {
+                    let rd = guard(|| f_dest(d0.clone()));
+                    if fp(&rd) != b {
+                        dis.push(Dis {
+                            class: "forms",
+                            key: format!("forms:{what}:dirty-destination-differs"),
+                            expected: format!("the result does not depend on what the destination held (destination #{k} held: {}); fresh destination gives: {}", ct_meta(d0), ct_meta(r2.as_ref().unwrap())),
+                            observed: match &rd {
+                                Ok(c) => ct_meta(c),
+                                Err(e) => format!("refused: {e}"),
+                            },
+                        });
+                        break;
+                    }
+                }
             } else if a.is_ok() && (a != b || a != c) {
                 dis.push(Dis {
                     class: "forms",
@@ -701,8 +721,7 @@ impl Sys {
                         $inpl(&mut c);
                         c
                     },
-                    &|| {
-                        let mut d = Ciphertext::new();
+                    &|mut d: Ciphertext| {
                         $dest(&mut d);
                         d
                     },
@@ -742,8 +761,7 @@ impl Sys {
                         ev.$inpl(&mut c, b);
                         c
                     },
-                    &|| {
-                        let mut d = Ciphertext::new();
+                    &|mut d: Ciphertext| {
                         ev.$dest(a, b, &mut d);
                         d
                     },
@@ -774,8 +792,7 @@ impl Sys {
                         ev.$inpl(&mut c, p);
                         c
                     },
-                    &|| {
-                        let mut d = Ciphertext::new();
+                    &|mut d: Ciphertext| {
                         ev.$dest(a, p, &mut d);
                         d
                     },
